@@ -53,6 +53,7 @@ fn run_generated(run_idx: u64, run_seed: u64, profile: &str, steps: usize, journ
     let cfg = draw_cfg(&mut rng, profile, steps);
     let mut gen_rng = rng.split(1);
     let mut drop_rng = rng.split(2);
+    let mut script = draw_script(&mut rng.split(3), &cfg, profile);
     alloc::begin_run(alloc_cfg(&cfg));
     journal.reset(&J::obj().set("run", run_idx).set("seed", run_seed).set("profile", profile).set("cfg", cfg_to_json(&cfg)).dump());
     let mut w = World::new();
@@ -74,14 +75,14 @@ fn run_generated(run_idx: u64, run_seed: u64, profile: &str, steps: usize, journ
     let mut had_panic = false;
     for step in 0..cfg.steps {
         let op = {
-            let mut g = Gen { rng: &mut gen_rng, cfg: &cfg };
+            let mut g = Gen { rng: &mut gen_rng, cfg: &cfg, script: &mut script };
             g.next(&w, step)
         };
         journal.line(&op.dump());
         w.step = step;
         let so = exec(&mut w, &op);
         w.check_invariants(so.scribbled);
-        if so.outcome == "panic" {
+        if so.outcome == "panic" && !so.partial {
             had_panic = true;
         }
         if had_panic {
